@@ -65,7 +65,34 @@ def observe(light_set, n, g):
         obs['prev'].append(idx_of(name_list.prev(probe)))
     for k in range(1, g + 2):
         obs['absent_group'].append(light_set.get_group_lights('g%d' % k) is None)
+    # the VM's own step through the members of a group (VmDiscover.dnextm), forwards and backwards, from every probe value -
+    # also from names that are not (or no longer) members: the nearest remaining member comes next
+    obs['gnext'], obs['gprev'] = member_steps(gnames, g, n)
     return obs
+
+
+def member_steps(gnames, g, n):
+    try:
+        from bardolph.vm.machine import Registers
+        from bardolph.vm.vm_codes import Operand
+        from bardolph.vm.vm_discover import VmDiscover
+        reg = Registers()
+        walker = VmDiscover(None, reg)
+    except BaseException:
+        return [[-1] * (n + 2)] * g, [[-1] * (n + 2)] * g          # (the VM has no such class any more: not judged)
+    out = {True: [], False: []}
+    for k in range(1, g + 1):
+        for forward in (True, False):
+            row = []
+            for p in range(0, n + 2):
+                if 'g%d' % k not in gnames:
+                    row.append(0)
+                    continue
+                reg.operand, reg.disc_forward = Operand.GROUP, forward
+                walker.dnextm('g%d' % k, name_of(p))
+                row.append(idx_of(reg.result) if isinstance(reg.result, str) else 0)
+            out[forward].append(row)
+    return out[True], out[False]
 
 
 def replay(hist, n, g, max_age):
@@ -95,7 +122,8 @@ def replay(hist, n, g, max_age):
             except BaseException as ex:
                 raised = True
                 obs = {'names': [], 'count': 0, 'group_names': [], 'loc_names': [], 'group_members': [], 'loc_members': [],
-                       'reported': [], 'next': [0] * (n + 2), 'prev': [0] * (n + 2), 'absent_group': [True] * (g + 1), 'error': repr(ex)}
+                       'reported': [], 'next': [0] * (n + 2), 'prev': [0] * (n + 2), 'absent_group': [True] * (g + 1), 'error': repr(ex),
+                       'gnext': [[0] * (n + 2)] * g, 'gprev': [[0] * (n + 2)] * g}
             snap = step['snap'] if step['snap'] else [0]
             steps.append({'a': kind, 'snap': snap, 'raised': raised})
             observations.append(obs)
